@@ -199,6 +199,11 @@ type Conn struct {
 	// peer that stopped reading with a full socket buffer).
 	Stall chan struct{}
 
+	// armed stall (StallSends / Unstall), usable while the connection is live
+	stallOn  int32
+	stallCh  chan struct{}
+	stallMu  sync.Mutex
+
 	// Jitter, when non-nil, is called at the start of every operation.
 	Jitter func()
 
@@ -239,6 +244,24 @@ func (c *Conn) plan() (int64, bool) {
 		return at, atomic.LoadInt32(&c.failAfter) == 1
 	}
 	return c.FailAt, c.FailAfter
+}
+
+// StallSends makes every following Send block (as on a full socket buffer)
+// until Unstall is called or the connection is closed.
+func (c *Conn) StallSends() {
+	c.stallMu.Lock()
+	c.stallCh = make(chan struct{})
+	c.stallMu.Unlock()
+	atomic.StoreInt32(&c.stallOn, 1)
+}
+
+// Unstall releases stalled Sends.
+func (c *Conn) Unstall() {
+	if atomic.CompareAndSwapInt32(&c.stallOn, 1, 0) {
+		c.stallMu.Lock()
+		close(c.stallCh)
+		c.stallMu.Unlock()
+	}
 }
 
 // Pair creates a connected pair. a is conventionally the broker/client side
@@ -282,6 +305,17 @@ func (c *Conn) Send(pkt packet.Generic, _ bool) error {
 	if c.Stall != nil {
 		select {
 		case <-c.Stall:
+		case <-c.closedCh:
+			return ErrClosed
+		}
+	}
+	if atomic.LoadInt32(&c.stallOn) == 1 {
+		c.stallMu.Lock()
+		ch := c.stallCh
+		c.stallMu.Unlock()
+		c.Log.AddPkt(c.Name, "send-stalled", pkt, "peer is not reading")
+		select {
+		case <-ch:
 		case <-c.closedCh:
 			return ErrClosed
 		}
